@@ -1,6 +1,7 @@
 package verifsim
 
 import (
+	"bytes"
 	"crypto"
 	"crypto/x509"
 	"crypto/x509/pkix"
@@ -245,4 +246,28 @@ func (r *Responder) serve(hit *NetHit) Delivery {
 	r.Last = ans
 	d.Note = r.State
 	return d
+}
+
+// ShareURL serves several responders (one per issuing CA) under ONE URL, as a PKI with a single OCSP front end does: the
+// request names the issuer by the hash of its key, and the responder of that issuer answers.
+func (w *World) ShareURL(url string, rs ...*Responder) {
+	w.h.Net.Handle(url, func(hit *NetHit) Delivery {
+		if req, err := ocsp.ParseRequest(hit.ReqBody); err == nil {
+			for _, r := range rs {
+				var spki struct {
+					Alg       pkix.AlgorithmIdentifier
+					PublicKey asn1.BitString
+				}
+				if _, e := asn1.Unmarshal(r.Issuer.Cert.RawSubjectPublicKeyInfo, &spki); e != nil {
+					continue
+				}
+				hsh := req.HashAlgorithm.New()
+				hsh.Write(spki.PublicKey.RightAlign())
+				if bytes.Equal(hsh.Sum(nil), req.IssuerKeyHash) {
+					return r.serve(hit)
+				}
+			}
+		}
+		return Delivery{Kind: dReply, Status: 400, CutAt: -1, Body: []byte("unknown issuer")}
+	})
 }
